@@ -8,6 +8,9 @@ CONSTANTS D = 4
           MaxLife = 480000
           AddrSectorsMax = 4
           AddrPartsMax = 3
+          MaxPC = 86400
+          ChalDelay = 1
+          WithPC = TRUE
           MaxEpoch = 30
           MaxSectors = 2
           ExportLen = 0
